@@ -5,7 +5,8 @@ func init() {
 		Assumptions: assume(
 			"the reference table props/c11/conv.go encodes Go's conversion rules: identity for interface{}, numeric conversions, integer->string rune strings, string<->[]byte/[]rune, element-wise slices/arrays/maps, zero value for nil, error otherwise",
 			"string -> byte/rune (Go has no such conversion, the code special-cases one character): several characters must be an error; one character to rune, one ASCII character to byte: an error or exactly that character; the empty string, strings that are not UTF-8 and one non-ASCII character to byte are not judged",
-			"go calls (sub-check gocall): a host function that has not been invoked 20 s after a go statement that returned without error counts as never invoked",
+			"go calls (sub-checks gocall and goseq): a host function that has not been invoked 20 s after a go statement that returned without error counts as never invoked",
+			"several calls in one run (sub-check goseq): calls of Go functions do not share state, so the reference for a script of several calls (plain or launched with go) is the multiset of the invocations planned for each call on its own; the order in which launched calls arrive is not judged; a call that plans the same invocation as an earlier call of the same function is not generated",
 			"argument lists (sub-check liveargs): anko evaluates the arguments of a call from left to right, and \"exactly the supplied arguments\" means the value each argument expression had when it was evaluated, whatever a later argument does to the place it was read from (a plain variable, a map entry and a converted value behave like that on every tree; struct and array VALUES as arguments are not generated)",
 			"callbacks of variadic Go func types (sub-check vcallbacks): a script function that is variadic from the position of Go's variadic parameter, or from an earlier one, must see every argument Go passed, one by one (also when Go passes a slice with f(a, xs...)); what a NON-variadic script parameter at the variadic position holds is not judged",
 			"not asserted beyond \"no host panic\" (statement silent): pointer vs non-pointer and non-nil pointer re-typing, float outside the target integer range, integer -> float32 where one- and two-step rounding differ, surplus spread elements and arguments of parameterless functions (dropped, pinned by the repository's tests), spread value landing in a fixed slot of a variadic function, more callback results than declared, script callbacks of another arity, field writes through non-pointer receivers")})
